@@ -116,7 +116,7 @@ func aggPatterns() []aggPattern {
 			return p
 		}
 	}
-	return []aggPattern{
+	base := []aggPattern{
 		{"none", func(items []aggItem, bs int, r *mon.Rand, _ []*encryption.BLS0ChainScheme) []int { return []int{} }},
 		{"single-random-point", func(items []aggItem, bs int, r *mon.Rand, _ []*encryption.BLS0ChainScheme) []int {
 			i := r.Intn(len(items))
@@ -195,6 +195,176 @@ func aggPatterns() []aggPattern {
 			items[p[1]].sig = addToSig(items[p[1]].sig, d2, false)
 			items[p[2]].sig = addToSig(addToSig(items[p[2]].sig, d1, true), d2, true)
 			return p
+		}},
+	}
+	return append(base, c32ZeroSumPatterns()...)
+}
+
+// ---- coordinated forgeries whose sum is the neutral element of G1 (no honest signature involved in the forged part)
+
+// c32NeutralSig is the serialized neutral point ("all-zero signature").
+func c32NeutralSig() string {
+	var g bls.G1
+	g.Clear()
+	return bls.CastToSign(&g).SerializeToHexStr()
+}
+
+// c32ZeroSum returns k forged "signatures" (points nobody signed) whose sum is the neutral point:
+// k-1 seeded points and the negated sum of them; k=1 gives the neutral point itself.
+func c32ZeroSum(r *mon.Rand, k int) []string {
+	var acc bls.G1
+	acc.Clear()
+	out := make([]string, 0, k)
+	for i := 0; i < k-1; i++ {
+		g := randG1(r)
+		var t bls.G1
+		bls.G1Add(&t, &acc, g)
+		acc = t
+		out = append(out, bls.CastToSign(g).SerializeToHexStr())
+	}
+	var last bls.G1
+	bls.G1Neg(&last, &acc)
+	out = append(out, bls.CastToSign(&last).SerializeToHexStr())
+	// the closing element is not always the last one in the list
+	j := r.Intn(k)
+	out[j], out[k-1] = out[k-1], out[j]
+	return out
+}
+
+// c32SumIsNeutral re-checks the generator: the listed signatures really add up to the neutral point.
+func c32SumIsNeutral(sigs []string) bool {
+	var acc bls.G1
+	acc.Clear()
+	for _, h := range sigs {
+		var sg bls.Sign
+		if sg.DeserializeHexStr(h) != nil {
+			return false
+		}
+		var t bls.G1
+		bls.G1Add(&t, &acc, bls.CastFromSign(&sg))
+		acc = t
+	}
+	return acc.IsZero()
+}
+
+func c32ZeroSumPatterns() []aggPattern {
+	type apply = func(items []aggItem, bs int, r *mon.Rand, _ []*encryption.BLS0ChainScheme) []int
+	forge := func(items []aggItem, pos []int, r *mon.Rand) {
+		f := c32ZeroSum(r, len(pos))
+		if !c32SumIsNeutral(f) {
+			panic("c32: zero-sum generator broken")
+		}
+		for i, p := range pos {
+			items[p].sig = f[i]
+		}
+	}
+	oppositePair := func(same bool) apply {
+		return func(items []aggItem, bs int, r *mon.Rand, _ []*encryption.BLS0ChainScheme) []int {
+			p := pickPair(r, len(items), bs, same)
+			if p == nil {
+				return nil
+			}
+			forge(items, p, r) // X and -X
+			return p
+		}
+	}
+	all := func(n int) []int {
+		p := make([]int, n)
+		for i := range p {
+			p[i] = i
+		}
+		return p
+	}
+	// first and last touched position first (they decide the position class of the evidence)
+	ends := func(p []int) []int {
+		if len(p) > 2 {
+			q := append([]int{p[0], p[len(p)-1]}, p[1:len(p)-1]...)
+			return q
+		}
+		return p
+	}
+	return []aggPattern{
+		// every signature of the set is forged; the whole set sums to the neutral point (spans all batches)
+		{"zero-sum-all-forged", func(items []aggItem, bs int, r *mon.Rand, _ []*encryption.BLS0ChainScheme) []int {
+			if len(items) < 2 {
+				return nil
+			}
+			p := all(len(items))
+			forge(items, p, r)
+			return ends(p)
+		}},
+		// every signature forged, and every batch sums to the neutral point on its own
+		{"zero-sum-every-batch-forged", func(items []aggItem, bs int, r *mon.Rand, _ []*encryption.BLS0ChainScheme) []int {
+			if len(items) < 2 || bs >= len(items) {
+				return nil // one batch: same as zero-sum-all-forged
+			}
+			for st := 0; st < len(items); st += bs {
+				en := st + bs
+				if en > len(items) {
+					en = len(items)
+				}
+				forge(items, all(en)[st:], r)
+			}
+			return ends(all(len(items)))
+		}},
+		// all signatures of one batch forged to sum to the neutral point, the other batches honest
+		{"zero-sum-one-batch-forged", func(items []aggItem, bs int, r *mon.Rand, _ []*encryption.BLS0ChainScheme) []int {
+			if bs >= len(items) {
+				return nil
+			}
+			nb := (len(items) + bs - 1) / bs
+			b := r.Intn(nb)
+			en := (b + 1) * bs
+			if en > len(items) {
+				en = len(items)
+			}
+			p := all(en)[b*bs:]
+			forge(items, p, r)
+			return ends(p)
+		}},
+		// a seeded subset (2..n entries, any batches) forged to sum to the neutral point, the rest honest
+		{"zero-sum-subset-forged", func(items []aggItem, bs int, r *mon.Rand, _ []*encryption.BLS0ChainScheme) []int {
+			if len(items) < 3 {
+				return nil
+			}
+			k := 2 + r.Intn(len(items)-2)
+			p := pickDistinct(r, len(items), k)
+			forge(items, p, r)
+			return p
+		}},
+		{"opposite-forged-pair", oppositePair(true)},
+		{"opposite-forged-pair-cross-batch", oppositePair(false)},
+		// the neutral point as a signature
+		{"neutral-single", func(items []aggItem, bs int, r *mon.Rand, _ []*encryption.BLS0ChainScheme) []int {
+			i := r.Intn(len(items))
+			items[i].sig = c32NeutralSig()
+			return []int{i}
+		}},
+		{"neutral-all", func(items []aggItem, bs int, r *mon.Rand, _ []*encryption.BLS0ChainScheme) []int {
+			if len(items) < 2 {
+				return nil // n=1 is neutral-single
+			}
+			for i := range items {
+				items[i].sig = c32NeutralSig()
+			}
+			return ends(all(len(items)))
+		}},
+		// neutral signatures fill whole batches (those batches aggregate to the neutral point), the rest honest
+		{"neutral-one-batch", func(items []aggItem, bs int, r *mon.Rand, _ []*encryption.BLS0ChainScheme) []int {
+			if bs >= len(items) {
+				return nil
+			}
+			nb := (len(items) + bs - 1) / bs
+			b := r.Intn(nb)
+			en := (b + 1) * bs
+			if en > len(items) {
+				en = len(items)
+			}
+			p := all(en)[b*bs:]
+			for _, i := range p {
+				items[i].sig = c32NeutralSig()
+			}
+			return ends(p)
 		}},
 	}
 }
